@@ -1,6 +1,8 @@
 import Req.Driver.Proto
 import Req.Client.Form
 import Req.Client.Multipart
+import Req.Client.Body
+import Req.Client.Progress
 /-! Driver lanes of C17. -/
 namespace Req.Driver.L.C17
 open Req.Proto
@@ -56,10 +58,175 @@ def laneParseQ : List String → String
     | none => "bad-op"
   | _ => "bad-op"
 
+/-! ### multipart -/
+
+/-- flat `k,v,k,v…` list → pairs (odd = none). -/
+def mkPairs : List Bytes → Option (List (Bytes × Bytes))
+  | [] => some []
+  | [_] => none
+  | k :: v :: r => (mkPairs r).map fun x => (k, v) :: x
+
+/-- parallel lists → files. -/
+def mkFiles : List Bytes → List Bytes → List Bytes → List Bytes → List Nat → List Bytes →
+    Option (List Req.Multipart.File)
+  | [], [], [], [], [], [] => some []
+  | p :: ps, n :: ns, t :: ts, c :: cs, k :: ks, ex =>
+    if ex.length < 2 * k then none
+    else do
+      let e ← mkPairs (ex.take (2 * k))
+      let r ← mkFiles ps ns ts cs ks (ex.drop (2 * k))
+      pure (⟨p, n, e, t, c⟩ :: r)
+  | _, _, _, _, _, _ => none
+
+def decodeFiles (a b c d e f : String) : Option (List Req.Multipart.File) := do
+  let a ← decodeList a
+  let b ← decodeList b
+  let c ← decodeList c
+  let d ← decodeList d
+  let e ← decodeNatList e
+  let f ← decodeList f
+  mkFiles a b c d e f
+
+/-- `c17mpwrite <boundary> <fields flat k,v> <params> <names> <ctypes> <contents> <extracounts> <extras>`
+→ the multipart body. -/
+def laneMpWrite : List String → String
+  | [b, flds, a1, a2, a3, a4, a5, a6] =>
+    match decodeHex b, (decodeList flds).bind mkPairs, decodeFiles a1 a2 a3 a4 a5 a6 with
+    | some b, some flds, some files => encodeHex (Req.Multipart.write b flds files)
+    | _, _, _ => "bad-op"
+  | _ => "bad-op"
+
+def showItems (items : List Req.Multipart.Item) : String :=
+  if items.isEmpty then "-" else
+  ";".intercalate (items.map fun
+    | .field n v => "v:" ++ encodeHex n ++ ":" ++ encodeHex v
+    | .file n f t c => "f:" ++ encodeHex n ++ ":" ++ encodeHex f ++ ":" ++ encodeHex t ++ ":" ++ encodeHex c)
+
+/-- `c17mpserver <boundary> <body>` → what the Lean SERVER makes of a body. -/
+def laneMpServer : List String → String
+  | [b, body] =>
+    match decodeHex b, decodeHex body with
+    | some b, some body =>
+      match Req.Multipart.serverForm b body with
+      | .ok items => showItems items
+      | .error .unsupported => "unsupported"
+      | .error _ => "reject"
+    | _, _ => "bad-op"
+  | _ => "bad-op"
+
+/-- `c17mpe2e <boundary> <fields> <files…>` → Lean server ∘ Lean client. -/
+def laneMpE2E : List String → String
+  | [b, flds, a1, a2, a3, a4, a5, a6] =>
+    match decodeHex b, (decodeList flds).bind mkPairs, decodeFiles a1 a2 a3 a4 a5 a6 with
+    | some b, some flds, some files =>
+      match Req.Multipart.serverForm b (Req.Multipart.write b flds files) with
+      | .ok items => showItems items
+      | .error .unsupported => "unsupported"
+      | .error _ => "reject"
+    | _, _, _ => "bad-op"
+  | _ => "bad-op"
+
+/-- `c17cd <param> <filename> <extras flat> <ctype>` → the part header block of a file
+(`createMultipartHeader` as `CreatePart` writes it). -/
+def laneCd : List String → String
+  | [p, n, ex, t] =>
+    match decodeHex p, decodeHex n, (decodeList ex).bind mkPairs, decodeHex t with
+    | some p, some n, some ex, some t => encodeHex (Req.Multipart.fileHeader ⟨p, n, ex, t, []⟩)
+    | _, _, _, _ => "bad-op"
+  | _ => "bad-op"
+
+/-- `c17quote <value>` → what a standard server reads back from `; filename="<quoted value>"`. -/
+def laneQuote : List String → String
+  | [v] =>
+    match decodeHex v with
+    | some v =>
+      match Req.Multipart.parseMediaType (Req.Multipart.fileDisposition ⟨[120], v, [], [], []⟩) with
+      | .ok (_, ps) => "ok " ++ encodeHex (Req.Multipart.lookup Req.Multipart.filenameKey ps)
+      | .error _ => "reject"
+    | none => "bad-op"
+  | _ => "bad-op"
+
+/-! ### body dispatch -/
+
+def decodeOpt (s : String) : Option (Option Bytes) :=
+  if s == "!" then some none else (decodeHex s).map some
+
+def showKind : Req.Body.Kind → String
+  | .none => "none" | .multipart => "multipart" | .form => "form"
+  | .marshalJson => "json" | .marshalXml => "xml" | .raw => "raw"
+
+/-- `c17body method allowGet multipart ck cc cv rk rc rv ordered boundary f1..f6 marshal json xml body reqCT clientCT sniffed` -/
+def laneBody : List String → String
+  | [m, ag, mp, ck, cc, cv, rk, rc, rv, ord, b, f1, f2, f3, f4, f5, f6, mf, js, xm, body, rct, cct, sn] =>
+    let r : Option String := do
+      let m ← decodeHex m
+      let ck ← decodeList ck; let cc ← decodeNatList cc; let cv ← decodeList cv
+      let rk ← decodeList rk; let rc ← decodeNatList rc; let rv ← decodeList rv
+      let cform ← mkValues ck cc cv
+      let rform ← mkValues rk rc rv
+      let ord ← decodeList ord
+      let b ← decodeHex b
+      let files ← decodeFiles f1 f2 f3 f4 f5 f6
+      let js ← decodeOpt js
+      let xm ← decodeOpt xm
+      let body ← decodeOpt body
+      let rct ← decodeHex rct
+      let cct ← decodeHex cct
+      let sn ← decodeHex sn
+      let cfg : Req.Body.Cfg := {
+        method := toStr m, allowGet := ag == "1", multipart := mp == "1",
+        clientForm := cform, reqForm := rform, ordered := ord, files := files, boundary := b,
+        marshal := if mf == "1" then some (js, xm) else none,
+        body := body, reqCT := rct, clientCT := cct, sniffed := sn }
+      match Req.Body.dispatch cfg with
+      | none => pure "err"
+      | some o =>
+        pure (showKind o.kind ++ " " ++ (match o.body with | none => "nil" | some x => encodeHex x)
+          ++ " " ++ encodeHex o.ct)
+    r.getD "bad-op"
+  | _ => "bad-op"
+
+/-! ### progress automata -/
+
+def showInts (l : List Int) : String :=
+  if l.isEmpty then "-" else ",".intercalate (l.map toString)
+
+def decodeIntList (s : String) : Option (List Int) :=
+  if s == "-" then some [] else (s.splitOn ",").mapM String.toInt?
+
+/-- `c17progw <total> <ns> <clock bits>` → callback arguments of the upload writer. -/
+def laneProgW : List String → String
+  | [tot, ns, cl] =>
+    match tot.toInt?, decodeIntList ns, decodeNatList cl with
+    | some tot, some ns, some cl =>
+      if ns.length != cl.length then "bad-op" else
+      showInts (Req.Progress.runW ⟨0, tot⟩ ((ns.zip cl).map fun (n, c) => ⟨n, c == 1⟩))
+    | _, _, _ => "bad-op"
+  | _ => "bad-op"
+
+/-- `c17progr <ns> <eof bits> <clock bits>` → callback arguments of the download reader. -/
+def laneProgR : List String → String
+  | [ns, eofs, cl] =>
+    match decodeIntList ns, decodeNatList eofs, decodeNatList cl with
+    | some ns, some eofs, some cl =>
+      if ns.length != cl.length || ns.length != eofs.length then "bad-op" else
+      showInts (Req.Progress.runR ⟨0, 0⟩
+        (((ns.zip eofs).zip cl).map fun ((n, e), c) => ⟨n, e == 1, c == 1⟩))
+    | _, _, _ => "bad-op"
+  | _ => "bad-op"
+
 def lanes : List (String × (List String → String)) := [
   ("c17ordered", laneOrdered),
   ("c17form", laneForm),
-  ("c17parseq", laneParseQ)
+  ("c17parseq", laneParseQ),
+  ("c17mpwrite", laneMpWrite),
+  ("c17mpserver", laneMpServer),
+  ("c17mpe2e", laneMpE2E),
+  ("c17cd", laneCd),
+  ("c17quote", laneQuote),
+  ("c17body", laneBody),
+  ("c17progw", laneProgW),
+  ("c17progr", laneProgR)
 ]
 
 end Req.Driver.L.C17
